@@ -194,6 +194,9 @@ func c01Compare(e *Env, p *N, src, goOut, model string) {
 	if goOut == model {
 		return
 	}
+	if gf[0] == "err" && gf[1] == "compile" && mf[0] == "err" && mf[1] == "compile" {
+		return // rejected statically by the real compiler, at first use by the reference semantics: same class
+	}
 	// the Lean semantics is the Spec: a difference is a violation of the property unless the
 	// program falls under a known finding's guard
 	if gf[0] == "err" && gf[1] == "context" {
